@@ -17,6 +17,10 @@ enum Model {
     Closure(Vec<i64>),
     OptArr(Vec<i64>),
     Int(i64),
+    /// array<Rec>: (name, vals) per element - three levels deep
+    ArrRec(Vec<(String, Vec<i64>)>),
+    /// struct containing a struct containing an array
+    Outer { tag: String, name: String, vals: Vec<i64> },
 }
 
 const HELPERS: &str = r#"use simhost
@@ -29,6 +33,11 @@ type Rec = {
 type Shape =
     | Leaf(string)
     | Node(array<string>, string)
+
+type Outer = {
+    tag: string
+    inner: Rec
+}
 
 fn ji(a: array<int>) -> string {
     var s = ""
@@ -53,6 +62,16 @@ fn jn(a: array<array<int>>) -> string {
 }
 fn show_rec(r: Rec) -> string {
     r.name .. ":" .. ji(r.vals)
+}
+fn show_recs(rs: array<Rec>) -> string {
+    var s = ""
+    for r in rs {
+        s = s .. "[" .. show_rec(r) .. "]"
+    }
+    s
+}
+fn show_outer(o: Outer) -> string {
+    o.tag .. "/" .. show_rec(o.inner)
 }
 fn show_tup(t: (int, array<string>)) -> string {
     let (n, xs) = t
@@ -110,7 +129,13 @@ fn js(a: &[String]) -> String {
 
 impl Model {
     fn fresh(rng: &mut Rng) -> Model {
-        match rng.below(10) {
+        match rng.below(12) {
+            10 => Model::ArrRec(vec![("r0".into(), vec![1]), ("q1".into(), vec![2, 3])]),
+            11 => Model::Outer {
+                tag: "o1".into(),
+                name: "i2".into(),
+                vals: vec![9],
+            },
             0 => Model::ArrInt(vec![1, 2, 3]),
             1 => Model::ArrStr(vec!["a1".into(), "b2".into()]),
             2 => Model::Nested(vec![vec![1], vec![2, 3]]),
@@ -139,6 +164,8 @@ impl Model {
             Model::Closure(_) => "closure-capturing-array",
             Model::OptArr(_) => "option<array<int>>",
             Model::Int(_) => "int",
+            Model::ArrRec(_) => "array<struct{string,array<int>}>",
+            Model::Outer { .. } => "struct{string,struct{string,array<int>}}",
         }
     }
 
@@ -181,6 +208,26 @@ impl Model {
                 a.iter().map(|x| x.to_string()).collect::<Vec<_>>().join(", ")
             ),
             Model::Int(n) => format!("var {v} = {n}\n"),
+            Model::ArrRec(rs) => format!(
+                "var {v} = [{}]\n",
+                rs.iter()
+                    .map(|(name, vals)| format!(
+                        "Rec(\"{}\" .. {}, [{}])",
+                        &name[..1],
+                        &name[1..],
+                        vals.iter().map(|x| x.to_string()).collect::<Vec<_>>().join(", ")
+                    ))
+                    .collect::<Vec<_>>()
+                    .join(", ")
+            ),
+            Model::Outer { tag, name, vals } => format!(
+                "var {v} = Outer(\"{}\" .. {}, Rec(\"{}\" .. {}, [{}]))\n",
+                &tag[..1],
+                &tag[1..],
+                &name[..1],
+                &name[1..],
+                vals.iter().map(|x| x.to_string()).collect::<Vec<_>>().join(", ")
+            ),
         }
     }
 
@@ -196,6 +243,8 @@ impl Model {
             Model::Closure(_) => format!("(\"\" .. {v}(0))"),
             Model::OptArr(_) => format!("show_opt({v})"),
             Model::Int(_) => format!("(\"\" .. {v})"),
+            Model::ArrRec(_) => format!("show_recs({v})"),
+            Model::Outer { .. } => format!("show_outer({v})"),
         }
     }
 
@@ -211,6 +260,8 @@ impl Model {
             Model::Closure(a) => a.len().to_string(),
             Model::OptArr(a) => format!("some:{}", ji(a)),
             Model::Int(n) => n.to_string(),
+            Model::ArrRec(rs) => rs.iter().map(|(name, vals)| format!("[{name}:{}]", ji(vals))).collect(),
+            Model::Outer { tag, name, vals } => format!("{tag}/{name}:{}", ji(vals)),
         }
     }
 
@@ -291,6 +342,35 @@ impl Model {
                 *x += n;
                 format!("{v} = {v} + {n}\n")
             }
+            Model::ArrRec(rs) => match rng.below(3) {
+                0 => {
+                    rs[0].1.push(n);
+                    format!("{v}[0].vals.push({n})\n")
+                }
+                1 => {
+                    let i = rs.len() - 1;
+                    rs[i].0 = format!("{tag}{n}");
+                    format!("{v}[{i}].name = \"{tag}\" .. {n}\n")
+                }
+                _ => {
+                    rs.push((format!("{tag}{n}"), vec![n]));
+                    format!("{v}.push(Rec(\"{tag}\" .. {n}, [{n}]))\n")
+                }
+            },
+            Model::Outer { tag: t, name, vals } => match rng.below(3) {
+                0 => {
+                    vals.push(n);
+                    format!("{v}.inner.vals.push({n})\n")
+                }
+                1 => {
+                    *name = format!("{tag}{n}");
+                    format!("{v}.inner.name = \"{tag}\" .. {n}\n")
+                }
+                _ => {
+                    *t = format!("{tag}{n}");
+                    format!("{v}.tag = \"{tag}\" .. {n}\n")
+                }
+            },
         }
     }
 }
@@ -352,6 +432,29 @@ pub fn generate(rng: &mut Rng) -> Workload {
         show_all(&task_models)
     ));
     src.push_str("}\n");
+    // optionally a second task capturing the same variables: its copies are independent of the
+    // first task's and of the spawner's
+    let second = rng.chance(1, 3);
+    let mut second_models = models.clone();
+    if second {
+        src.push_str("let go2: channel<int> = channel()\nlet done2: channel<string> = channel()\n");
+        src.push_str("task {\n");
+        if rng.chance(1, 2) {
+            src.push_str("    pause()\n");
+        }
+        src.push_str(&format!("    let before = {}\n", show_all(&second_models)));
+        for (m, v) in second_models.iter_mut().zip(&names) {
+            for line in m.mutate(rng, v, "U", true).lines() {
+                src.push_str(&format!("    {line}\n"));
+            }
+        }
+        src.push_str("    go2.read()\n");
+        src.push_str(&format!(
+            "    done2.write(before .. \"|\" .. {})\n",
+            show_all(&second_models)
+        ));
+        src.push_str("}\n");
+    }
     if rng.chance(1, 2) {
         src.push_str("pause()\n");
     }
@@ -374,6 +477,8 @@ pub fn generate(rng: &mut Rng) -> Workload {
                 Model::Closure(_) => format!("{v}_arr = [0]\n{v} = counter({v}_arr)\n"),
                 Model::OptArr(_) => format!("{v} = option.none\n"),
                 Model::Int(_) => format!("{v} = 0\n"),
+                Model::ArrRec(_) => format!("{v} = [Rec(\"z\" .. 0, [0])]\n"),
+                Model::Outer { .. } => format!("{v} = Outer(\"z\" .. 0, Rec(\"z\" .. 1, [0]))\n"),
             };
             src.push_str(&fresh);
         }
@@ -384,6 +489,9 @@ pub fn generate(rng: &mut Rng) -> Workload {
     src.push_str("let from_task = done.read()\n");
     src.push_str("obs(0, from_task)\n");
     src.push_str("obs(1, main_view)\n");
+    if second {
+        src.push_str("go2.write(1)\nobs(2, done2.read())\n");
+    }
     src.push_str("2\n");
 
     let task_after = want_all(&task_models);
@@ -395,12 +503,16 @@ pub fn generate(rng: &mut Rng) -> Workload {
             if task_first { " task-mutates-first" } else { " main-mutates-first" },
             if task_collects { " task-collects" } else { "" },
             if main_drops { " spawner-drops-and-collects" } else { "" }
-        ),
+        ) + if second { " two-tasks" } else { "" },
         src,
     );
     w.has_tasks = true;
     w.projection = Projection::AllThreads;
-    w.expect.main_obs = Some(vec![(0, format!("{snapshot}|{task_after}")), (1, main_view)]);
+    let mut expected = vec![(0, format!("{snapshot}|{task_after}")), (1, main_view)];
+    if second {
+        expected.push((2, format!("{snapshot}|{}", want_all(&second_models))));
+    }
+    w.expect.main_obs = Some(expected);
     w.expect.final_top = Some("2".into());
     w.expect.drains = true;
     w
